@@ -93,10 +93,12 @@ type smoothSuite struct {
 	join0   [2]func(kit.V3) bool   // radius 0
 	single  [2][]func(kit.V3) bool // one operand each, same radius
 	version [2]string
+	// inBox[i]: the point lies in operand i's own Min()/Max() box (closed)
+	inBox []func(kit.V3) bool
 }
 
 func (s *smoothSuite) run(pts []kit.V3, o *kit.Obs) error {
-	added, near2, tie := [2]int{}, 0, 0
+	added, near2, tie, contract := [2]int{}, 0, 0, 0
 	for _, p := range pts {
 		for v := 0; v < 2; v++ {
 			d := make([]float64, s.n)
@@ -111,6 +113,20 @@ func (s *smoothSuite) run(pts []kit.V3, o *kit.Obs) error {
 				if d[i] > 0 {
 					union = true
 				}
+			}
+			// Precondition (documented contract of the operands, cf. the boolean clauses): an operand must not
+			// claim a point outside its own box.  Primitives break this by one rounding error (SDF = +5e-17 one ulp
+			// outside the box); the smooth joins clip to the operands' boxes enlarged by the radius, so such a
+			// point is not decided here (property C03 owns it).
+			broken := false
+			for i := range d {
+				if d[i] > 0 && !s.inBox[i](p) {
+					broken = true
+				}
+			}
+			if broken {
+				contract++
+				continue
 			}
 			within := 0
 			for i := range d {
@@ -174,8 +190,15 @@ func (s *smoothSuite) run(pts []kit.V3, o *kit.Obs) error {
 	if added[1] > 0 {
 		o.Label("pts:v2-adds-beyond-union")
 	}
+	if contract > 0 {
+		o.Label("partial-skip:operand-sdf-positive-outside-own-box")
+	}
 	if tie > 0 {
-		o.Skip("v2-distance-tie")
+		if tie == len(pts) {
+			o.Skip("v2-distance-tie-at-every-point")
+		} else {
+			o.Label("partial-skip:v2-distance-tie")
+		}
 	}
 	// non-trivial: >= 3 operands and a point outside all of them within the radius of >= 2 (the only region in
 	// which the order of the operands can matter)
@@ -204,6 +227,10 @@ func checkSmooth3(c smoothCase, o *kit.Obs) error {
 		pr := pr
 		sdfs = append(sdfs, pr)
 		nsdfs = append(nsdfs, pr)
+		mn, mx := pr.Min(), pr.Max()
+		s.inBox = append(s.inBox, func(p kit.V3) bool {
+			return p[0] >= mn.X && p[1] >= mn.Y && p[2] >= mn.Z && p[0] <= mx.X && p[1] <= mx.Y && p[2] <= mx.Z
+		})
 		s.sdf = append(s.sdf, func(p kit.V3) float64 { return pr.SDF(m3.C3(p)) })
 		s.nsdf = append(s.nsdf, func(p kit.V3) (kit.V3, float64) {
 			nn, d := pr.NormalSDF(m3.C3(p))
@@ -246,6 +273,10 @@ func checkSmooth2(c smooth2Case, o *kit.Obs) error {
 		pr := pr
 		sdfs = append(sdfs, pr)
 		nsdfs = append(nsdfs, pr)
+		mn, mx := pr.Min(), pr.Max()
+		s.inBox = append(s.inBox, func(p kit.V3) bool {
+			return p[0] >= mn.X && p[1] >= mn.Y && p[0] <= mx.X && p[1] <= mx.Y
+		})
 		s.sdf = append(s.sdf, func(p kit.V3) float64 { return pr.SDF(c2(p)) })
 		s.nsdf = append(s.nsdf, func(p kit.V3) (kit.V3, float64) {
 			nn, d := pr.NormalSDF(c2(p))
